@@ -817,3 +817,35 @@ def rule_indexdir(ctx) -> RuleResult:
         res.notes.append("no get_indexer call in a (data, from_, to) re-indexer")
         res.min_instances = 0
     return res
+
+
+# ---------------------------------------------------------------------------------------------
+# R-PLACEHOLDER (C12, C19): the placeholder label of a block without any valid label has the labels' own dtype.
+# chunk_reduce answers an all-missing block with one missing label that the combine steps drop again.  With labels found at compute time
+# the block label arrays are concatenated: an untyped float NaN next to datetime64 labels is a DTypePromotionError inside a task, next to
+# float32 labels it changes the dtype of the returned labels.  The sibling arm hands on `groups` (typed like the labels), so the placeholder
+# arm must build its array from the labels' dtype (by.dtype / groups.dtype) wherever that dtype has a missing value.
+def rule_placeholder(ctx) -> RuleResult:
+    res = RuleResult("R-PLACEHOLDER", "the placeholder label of an all-missing block is typed like the labels", min_instances=1)
+    f = ctx.prog.func("core.chunk_reduce")
+    lab = f.params[1]
+    n = 0
+    for a in walk_own(f.node):
+        if not (isinstance(a, ast.Assign) and len(a.targets) == 1 and norm(a.targets[0]).replace('"', "'") == "results['groups']"):
+            continue
+        has_nan = any(norm(x) in ("np.nan", "float('nan')", "np.datetime64('NaT')") for x in ast.walk(a.value))
+        if not has_nan:
+            continue
+        n += 1
+        typed = any(isinstance(x, ast.Attribute) and x.attr == "dtype" and isinstance(x.value, ast.Name) and x.value.id in (lab, "groups", "group_idx", "grps")
+                    for x in ast.walk(a.value))
+        res.inst(f"chunk_reduce: placeholder '{norm(a.value)[:60]}' refers to the labels' dtype: {typed}", f"placeholder|{a.lineno}")
+        if not typed:
+            res.report("core.chunk_reduce|untyped-placeholder-label", f.where(a), f.qualname,
+                       f"'{norm(a)[:70]}' answers a block without valid labels with a float64 NaN whatever the labels are: with labels found at compute time the block "
+                       "label arrays are concatenated, which raises DTypePromotionError for datetime64 / timedelta64 labels (a block of NaT) and turns float32 labels "
+                       "into float64")
+    if n == 0:
+        res.notes.append("chunk_reduce no longer uses a missing-label placeholder: rule not applicable")
+        res.min_instances = 0
+    return res
